@@ -10,7 +10,7 @@ from . import synclib as L
 PROPERTY = "C20"
 DRIVER = "TraitsVerif/Driver/Sync.lean"
 PROPS_MODULES = ["TraitsVerif.Props.C20"]
-TRANSLATORS = []
+TRANSLATORS = ["syncprog"]
 RULE = ("seeded two-sided histories of 1-12 commands on 2-5 real HasTraits objects with scalar traits x, y and "
         "List traits l, m (and, in a quarter of the cases, classes of seven other shapes: List traits under different "
         "names with partial overlaps - a name that is a List trait in one class, a scalar trait in another, absent in a "
@@ -19,7 +19,14 @@ RULE = ("seeded two-sided histories of 1-12 commands on 2-5 real HasTraits objec
         "(extended slices with negative steps, sort, reverse, *=) on either list, whole-list assignment, "
         "sync_trait add / remove at any point (mutual / one-way, alias names, two partners, chains, occasionally "
         "cycles, self links and cross-kind links), `del partner; gc.collect()` at any point followed by a fresh "
-        "partner; thorough additionally kills the second side before every command of a history.  A case is "
+        "partner; a stream of hub histories with an armed trigger `kd` (a recording handler of one partner drops the "
+        "last reference to another object - a partner not yet visited, one already visited, the hub, the watcher "
+        "itself, an unrelated object - DURING the propagation, for scalar and List traits, one-way and mutual "
+        "links), followed by changes on both sides, a fresh partner and removals; a stream of `#sy` histories "
+        "(implementation + oracle only) with mixed partner kinds: a hub List trait with 2-4 List and Any partners "
+        "in any order, mutual or one-way (own vs shared list objects), whole-value assignments from every side, "
+        "in-place mutations of the List sides, removals; "
+        "thorough additionally kills the second side before every command of a history.  A case is "
         "non-trivial when some command changed a value, raised or propagated; distinct = distinct output line")
 TRUSTED = ["Py.List / Py.Slice and Model.TraitList (shared with C05; correspondence-checked there)",
            "change detection (`old != new` in ctraits setattr) is modelled as structural inequality of the harness values "
@@ -31,8 +38,19 @@ TRUSTED = ["Py.List / Py.Slice and Model.TraitList (shared with C05; corresponde
            "List traits have no minlen/maxlen (maxlen = sys.maxsize treated as unbounded; Model.guardLen is used for "
            "the exceptions the length guard raises before validation)",
            "CPython's recursion limit is the model's depth budget; C20_terminates shows it is never reached",
-           "list.sort = merge sort on ints in the driver"]
-ASSUMPTIONS = ["user handlers only record; handlers that raise or re-enter are C19's business",
+           "list.sort = merge sort on ints in the driver",
+           "translate/syncprog.py (source text of _sync_trait_modified / _sync_trait_items_modified -> PyLSync terms: "
+           "generic control flow, pure local bindings substituted, every remaining condition / effect must be one of "
+           "the atoms of PyLSync.Cond / PyLSync.Act; fails closed) and the interpreter of Model/PyLSync.lean: live dict "
+           "iteration = positional iteration with CPython's size check before every step (RuntimeError), a dead "
+           "weakref dereferences to None (AttributeError), `partner_list is changed_list` is false inside the model "
+           "(List traits copy), `del locked[name]` of an absent key is KeyError; both are exercised by the "
+           "correspondence run through the hand-written handlers proved equal to the interpretation",
+           "the harness runs with push_exception_handler(reraise_exceptions=False): an exception escaping a "
+           "synchronisation handler is swallowed by the notifier machinery and counted (r<n>), as in the model"]
+ASSUMPTIONS = ["user handlers only record, or (trigger `kd`) drop the last reference to another object that is not busy "
+               "(not the notifying object, not addressed by the running command, none of its sync handlers on the "
+               "stack); handlers that raise or re-enter are C19's business",
                "the traits are scalar traits and List traits; a List trait linked to an Any trait (which then holds the "
                "very same list object) is outside the model: the `#hook` corpus case runs on the implementation only",
                "weak references die at `del` + gc.collect() (CPython reference counting)"]
@@ -78,6 +96,19 @@ def corpus():
         # (`_l_default` method on the class / only on a subclass), linked with static ones
         "sy|x=int:l=*int+dm:m=*int,x=int:l=*int+ds:m=*int+so,x=int:l=*int+sub|li 0 l 1 l 1;mu 0 l ap 3;mu 1 l ds N N 2;"
         "li 2 l 0 l 1;mu 2 l ex [8,9];li 1 m 0 m 0;mu 1 m ap 7;mu 0 l rm 9",
+        # partner death DURING a propagation (known finding): a handler of the first partner drops the last
+        # reference to the third; the hub's handler iterates the live dict -> RuntimeError, the lock stays set,
+        # the remaining partner is not updated; a mutual partner's later change no longer comes back
+        "sy|int:int:int:int,int:int:int:int,int:int:int:int,int:int:int:int|li 0 x 1 x 1;li 0 x 2 x 0;li 0 x 3 x 0;kd 1 x 3;"
+        "as 0 x 2;as 1 x 5;as 0 x 7;as 1 x 8",
+        "sy|int:int:int:int,int:int:int:int,int:int:int:int|li 0 l 1 l 1;li 0 l 2 l 1;kd 1 l 2;mu 0 l ap 3;mu 1 l ap 4;mu 0 l ap 5",
+        # ... the victim is busy (the hub itself / the command's object) or no partner of the iterating table: nothing happens
+        "sy|int:int:int:int,int:int:int:int,int:int:int:int,int:int:int:int|li 0 x 1 x 1;li 0 x 2 x 1;kd 1 x 0;kd 2 x 3;kd 2 x 2;as 0 x 2;as 3 x 1;as 2 x 4",
+        # mixed partner kinds (implementation + oracle only): a List trait with a List partner and Any partners - one
+        # mutual (holds a list object of its own), one one-way (holds the hub's very list object); every in-place
+        # mutation must reach every side, also after a plain list was assigned from the Any side (seeded C20-m10)
+        "#sy|x=int:l=*int,x=int:l=*int,x=int:z=any,x=int:z=any|li 0 l 1 l 1;li 0 l 2 z 1;li 0 l 3 z 0;mu 0 l in 0 7;"
+        "as 0 l [1,2,3];mu 1 l ap 4;as 2 z [5,6];mu 0 l ap 7;mu 1 l ds N N 2;mu 0 l so;un 0 l 2 z 1;mu 0 l ap 9",
         # stale items handler after the partner died: later links still propagate
         "sy|int:int:int:int,int:int:int:int,int:int:int:int,int:int:int:int|li 0 l 1 l 0;ki 1;li 0 l 2 x 0;li 0 l 3 l 0;mu 0 l ap 1",
     ]
@@ -94,6 +125,10 @@ def generate(rng, tier):
         yield L.random_history(rng, gc_heavy=(rng.random() < 0.3))
     for _ in range(n // 3):
         yield L.random_shape_history(rng)
+    for _ in range(n // 6):
+        yield L.random_doom_history(rng)
+    for _ in range(n // 5):
+        yield L.random_any_history(rng)
     for _ in range(ngc):
         base = L.random_history(rng, maxcmds=9)
         yield from L.with_gc_everywhere(base)
@@ -151,15 +186,21 @@ class _Guard:
         sys.setrecursionlimit(self.base)
 
 
-def _attach(o, rec, guard, spec):
-    # two handlers: the name alone does not tell a trait `menu_items` from the items event of a trait `menu`
+def _attach(o, rec, guard, spec, fire=None):
+    # two handlers: the name alone does not tell a trait `menu_items` from the items event of a trait `menu`.
+    # They are registered at birth, hence run before the synchronisation handlers; after recording they fire
+    # the triggers armed on the trait (`kd`): partner death during the propagation
     def h(obj, name, old, new):
         guard.tick()
         rec[("t", name)].append((_copy(old), _copy(new)))
+        if fire is not None:
+            fire(name)
 
     def hi(obj, name, old, new):
         guard.tick()
         rec[("i", name[:-6])].append((new.index, list(new.removed), list(new.added)))
+        if fire is not None:
+            fire(name[:-6])
     for n in L.names(spec):
         o.on_trait_change(h, n)
     for n in L.lists(spec):
@@ -301,10 +342,37 @@ def _run(specs, cmds, objs, recs, swallowed, guard, falsy=""):
     if falsy:
         tags.add("falsy:" + falsy)
 
+    has_any = any(d[2] == "any" for sp in specs for d in sp)
+
+    def isany(pair):
+        return L.kind_of(specs[pair[0]], pair[1]) == "any"
+    doom = {}          # armed triggers: (watcher object, trait name) -> [victim object, ...]
+    busy = set()       # the objects the running command addresses
+    fired = []         # victims collected by triggers during the running command
+    midkill = False    # some partner died during a propagation in this history
+
+    def fire(i, name):
+        for j in doom.get((i, name), ()):
+            if j == i or j in busy or objs[j] is None:
+                continue
+            if objs[j] is UNBORN:
+                objs[j] = None
+                fired.append(j)
+                continue
+            if _locks(objs[j]):        # one of its synchronisation handlers is on the stack
+                continue
+            wr = weakref.ref(objs[j])
+            objs[j] = None
+            gc.collect()
+            fired.append(j)
+            if wr() is not None:
+                hits.append(_hit("sync-partner-kept-alive:during-propagation", "object %d survives del + gc.collect() "
+                                 "inside a handler although it is not busy" % j))
+
     def born(i):
         if objs[i] is UNBORN:
             objs[i] = L.make_class(specs[i], falsy)()
-            _attach(objs[i], recs[i], guard, specs[i])
+            _attach(objs[i], recs[i], guard, specs[i], lambda name, i=i: fire(i, name))
 
     for ci, cmd in enumerate(cmds):
         k = cmd[0]
@@ -322,8 +390,26 @@ def _run(specs, cmds, objs, recs, swallowed, guard, falsy=""):
             born(cmd[1])
             if k in ("li", "un"):
                 born(cmd[3])
+        if k == "kd":
+            doom.setdefault((cmd[1], cmd[2]), []).append(cmd[3])
+            tags.add("kd:" + ("self" if cmd[3] == cmd[1] else "other"))
+            outs.append("ok r0 %s" % " ".join(_show_obj(o, r, sp) for o, r, sp in zip(objs, recs, specs)))
+            continue
+        busy.clear()
+        busy.add(cmd[1])
+        if k in ("li", "un"):
+            busy.add(cmd[3])
+        del fired[:]
         alive = [i for i, o in enumerate(objs) if _live(o)]
         before = {i: _state(objs[i], specs[i]) for i in alive}
+        # identity of the list objects held (an Any trait can hold the very list object of another trait)
+        idents = {}
+        if has_any:
+            for i in alive:
+                for n in L.names(specs[i]):
+                    v = getattr(objs[i], n)
+                    if isinstance(v, list):
+                        idents.setdefault(id(v), []).append((i, n))
         exc = None
         ret = None
         try:
@@ -370,7 +456,7 @@ def _run(specs, cmds, objs, recs, swallowed, guard, falsy=""):
         res = "ok" if exc is None else "err:" + S.exc_name(exc)
         if exc is None and ret is not None:
             res = "ok=%s" % L.show_scalar(ret)
-        outs.append("%s r%d %s" % (res, len(swallowed), " ".join(_show_obj(o, r, sp) for o, r, sp in zip(objs, recs, specs))))
+        outs.append("%s r%d %s" % (res, min(len(swallowed), 9), " ".join(_show_obj(o, r, sp) for o, r, sp in zip(objs, recs, specs))))
         if exc is not None:
             tags.add("err:" + S.exc_name(exc))
 
@@ -384,15 +470,28 @@ def _run(specs, cmds, objs, recs, swallowed, guard, falsy=""):
         def islist(pair):
             return L.is_list(specs[pair[0]], pair[1])
 
-        sfx = ":after-partner-gc" if killed else ""
+        if fired:
+            # partners collected by a trigger while the command was propagating: their links are gone
+            killed = midkill = True
+            tags.add("died-during-propagation")
+            D = {(a, b) for (a, b) in D if a[0] not in fired and b[0] not in fired}
+            U = {(a, b) for (a, b) in U if a[0] not in fired and b[0] not in fired}
+        sfx = ":partner-died-during-propagation" if midkill else ":after-partner-gc" if killed else ""
         # (1) lock tables are empty between commands, nothing was swallowed by the notifier machinery
         stuck = [(i, _locks(objs[i])) for i in alive2 if _locks(objs[i])]
         if stuck:
-            hits.append(_hit("sync-stuck-lock-after-partner-gc" if killed else "sync-stuck-lock",
+            hits.append(_hit("sync-stuck-lock:partner-died-during-propagation" if midkill else
+                             "sync-stuck-lock-after-partner-gc" if killed else "sync-stuck-lock",
                              "lock table not empty after the command", locks=stuck, command=cmd))
         if swallowed:
             hits.append(_hit("sync-handler-raised" + sfx, "a synchronisation handler raised (swallowed by the "
                              "notifier machinery): %s" % swallowed, command=cmd))
+        if midkill and (stuck or swallowed):
+            # the propagation was aborted half-way and a lock is left behind: what follows (partners not
+            # updated, later changes not reaching the locked side) are consequences of this one defect
+            tainted = True
+            if swallowed:
+                tags.add("aborted:" + "+".join(sorted(set(swallowed))))
         if k == "ki":
             D = {(a, b) for (a, b) in D if a[0] != cmd[1] and b[0] != cmd[1]}
             U = {(a, b) for (a, b) in U if a[0] != cmd[1] and b[0] != cmd[1]}
@@ -519,7 +618,9 @@ def _run(specs, cmds, objs, recs, swallowed, guard, falsy=""):
         allowed = set()
         for s in starts:
             allowed |= _reach(E, s)
-        leak = [r for r in set(changed) | set(called) if r not in allowed]
+        # (a trait that is not a List trait, e.g. Any, may hold the very list object of another trait: its contents
+        # then change with that list, link or no link - only a notification counts for it)
+        leak = [r for r in (set(called) | {c for c in changed if not isany(c)}) if r not in allowed]
         if leak:
             gone = "removed-or-never-linked"
             hits.append(_hit("sync-leak:%s%s" % (k, sfx), "a change reached a trait no link leads to (%s)" % gone,
@@ -543,6 +644,8 @@ def _run(specs, cmds, objs, recs, swallowed, guard, falsy=""):
                         cur = _py_replay(val(before, r), ev)
                     except Exception:
                         cur = None
+            if isany(r) and isinstance(val(before, r), list) and not cs:
+                continue      # a list held by a non-List trait changes in place without any notification
             if not chain_ok or cur != val(after, r):
                 hits.append(_hit("sync-notify-untruthful:%s" % opk, "handler calls on %s do not add up to the change "
                                  "(doubled, missing or stale notification)" % (r,), calls=cs, before=val(before, r),
@@ -571,6 +674,31 @@ def _run(specs, cmds, objs, recs, swallowed, guard, falsy=""):
         for (a, b) in sorted(D):
             if a not in comp or a[0] not in after or b[0] not in after:
                 continue
+            if not uniform and k == "mu" and a == p and ev_p and not cyc and islist(p) and not (U & {(a, b), (b, a)}):
+                # mixed partner kinds: every partner of the mutated List trait that held an equal list (or, for
+                # a partner that is not a List trait, e.g. Any: a list of equal contents) before the mutation and
+                # accepts the added items unchanged holds the new contents afterwards - provided the items
+                # handler is installed, i.e. the mutated trait has a List partner (documented: items are
+                # synchronised for List traits)
+                has_list_partner = any(x == p and islist(y) for (x, y) in D)
+                kb = _kind(specs, b)[2:]
+                try:
+                    accepts = all(L.pure_validate(kb, x) == x for ev in ev_p for x in ev[2])
+                except L.Reject:
+                    accepts = False
+                vb0, vb1 = val(before, b), val(after, b)
+                # a list object shared by several partners (two Any partners holding one object) receives the
+                # delta once per holder: outside the property's statement, not judged
+                shared = [hs for hs in idents.values() if b in hs and any(h != b and h != p for h in hs)]
+                if (has_list_partner and accepts and not shared and isinstance(vb0, list) and vb0 == val(before, a)
+                        and (kb == "any" or _kind(specs, b) == _kind(specs, a)) and vb1 != val(after, a)
+                        and not (islist(b) and p in crossed and not calls(b, True))):
+                    tainted = True
+                    hits.append(_hit("sync-diverged:mixed-partners:%s%s" % (opk, ":partner-not-a-list-trait" if not islist(b) else ""),
+                                     "link %s -> %s: the partner held the same contents before the in-place mutation "
+                                     "and differs after it" % (a, b), command=cmd, left=val(after, a), right=vb1,
+                                     links=sorted(D)))
+                    continue
             if not uniform:
                 # the one divergence that is decidable without uniform validators: a mutual List-List link of
                 # equal idempotent kind, both lists equal before an in-place mutation of one of them, whose
